@@ -112,7 +112,7 @@ func runC14(w *World, pi interface{}) {
 			}
 		}
 		// the server may have written the established envelope to the socket although the client never read it
-		if peer.Link != nil && !peer.TLS && !peer.WSS {
+		if peer.Link != nil && !peer.TLS && !peer.WSS && !(peer.Kind == "ws" && swarm.WSCompress) { // (deflated frames cannot be read off the tap)
 			if strings.Contains(string(peer.Link.BA.Tap()), `"state":"established"`) {
 				wrote[k] = true
 			}
